@@ -28,6 +28,9 @@ func (k Key) String() string {
 	case "uint64":
 		return fmt.Sprintf("u%d", k.U)
 	case "float64":
+		if k.F == 0 {
+			return "f0" // -0 and +0 are the same key
+		}
 		return fmt.Sprintf("f%v", k.F)
 	}
 	return fmt.Sprintf("s%q", k.S)
